@@ -100,6 +100,15 @@ package data
 //@   nosafety
 //@   ensures[idempotent] implements(value, Value) ==> result == value
 //@   ensures[nil-is-null] !implements(value, Value) && value == nil ==> typeis(result, Null)
+//@   ghost iv int64 = 0
+//@   ghost bv bool = false
+//@   ghost sv string = ""
+//@   at call (reflect.Value).Int#0 after set iv = res
+//@   at call (reflect.Value).Bool#0 after set bv = res
+//@   at call (reflect.Value).String#0 after set sv = res
+//@   at call (reflect.Value).String#1 after set sv = res
+//@   at call fmt.Sprint#* forbid[map-keys-are-the-underlying-strings;C20] false
+//@   at call fmt.Sprintf#* forbid[map-keys-are-the-underlying-strings;C20] false
 //@   loop 0
 //@     noterm
 //@   loop 1
